@@ -53,21 +53,21 @@ def _clauses(n, mode):
     ens = []
     if n == 1:
         # the code's shortcut: baseline + cov * delta
-        ens.append(("C12.single_program_formula", "result == self.baseline + cov[0] * D[0]"))
+        ens.append(("C12+C13.single_program_formula", "result == self.baseline + cov[0] * D[0]"))
         return ens
     if n <= 2:
-        ens.append(("C12.weights_nonneg", " and ".join("%s >= 0" % W(c) for c in range(1, 2 ** n))))
+        ens.append(("C12+C13.weights_nonneg", " and ".join("%s >= 0" % W(c) for c in range(1, 2 ** n))))
     else:
         # one clause per weight: the conjunction over all 2^n - 1 weights is one large nonlinear query (tens of seconds), the
         # individual sign conditions are decided in well under a second each
         for c in range(1, 2 ** n):
-            ens.append(("C12.weight_of_combination_%s_is_nonneg" % combos[c], "%s >= 0" % W(c)))
-    ens.append(("C12.weights_total_at_most_one", " + ".join(W(c) for c in range(1, 2 ** n)) + " <= 1"))
+            ens.append(("C12+C13.weight_of_combination_%s_is_nonneg" % combos[c], "%s >= 0" % W(c)))
+    ens.append(("C12+C13.weights_total_at_most_one", " + ".join(W(c) for c in range(1, 2 ** n)) + " <= 1"))
     for i in range(n):
         members = [c for c in range(1, 2 ** n) if combos[c][i] == "1"]
-        ens.append(("C12.marginal_of_program_%d_is_its_coverage" % i, " + ".join(W(c) for c in members) + " == cov[%d]" % i))
-    ens.append(("C12.result_is_baseline_plus_weighted_outcomes", "result == self.baseline + " + " + ".join("%s * O[%d]" % (W(c), c) for c in range(1, 2 ** n))))
-    ens.append(("C12.baseline_at_zero_coverage", "implies(%s, result == self.baseline)" % " and ".join("cov[%d] == 0" % i for i in range(n))))
+        ens.append(("C12+C13.marginal_of_program_%d_is_its_coverage" % i, " + ".join(W(c) for c in members) + " == cov[%d]" % i))
+    ens.append(("C12+C13.result_is_baseline_plus_weighted_outcomes", "result == self.baseline + " + " + ".join("%s * O[%d]" % (W(c), c) for c in range(1, 2 ** n))))
+    ens.append(("C12+C13.baseline_at_zero_coverage", "implies(%s, result == self.baseline)" % " and ".join("cov[%d] == 0" % i for i in range(n))))
     return ens
 
 
